@@ -90,11 +90,18 @@ class ProgGen:
             elif c == 1 and "tab" in self.risky:
                 lines.append(ind + "col\tumn")
                 self.note("textblock:tab")
+            elif c == 2 and r.chance(0.5):
+                # whitespace-only content: part of the string value, unlike a truly empty line
+                lines.append(ind + r.choice(["  ", " ", ""]))
+                self.note("textblock:whitespace-only-line")
+            elif c == 2 and r.chance(0.5):
+                lines.append(ind + "trailing  ")
+                self.note("textblock:trailing-space")
             elif c == 2:
                 lines.append(ind + "  deeper")
             else:
                 lines.append(ind + "text %d" % r.below(9))
-        if lines[0] == "" or lines[0].endswith("deeper"):
+        if lines[0].strip() == "" or lines[0].endswith("deeper"):
             lines[0] = ind + "first"
         chomp = "-" if r.chance(0.25) else ""
         if chomp:
@@ -675,6 +682,9 @@ CANONICAL = {
     "C20-whitespace-unstable-near-comments": "f( /*c1q*/ )",
     "C20-rowan-function-without-paren-panic": "function x",
     "C20-rowan-bump-at-eof-panic": "@'v' [ /*/ { ;",
+    "C20-group-single-line-although-spanning":
+        '({"k1":[({}),local zz=function()zz;a],_q()::({_q():function()super}),"k1":[(@"v\\n"){[42]():::_q}],'
+        'local zz=function()([])})([({[0]:::b})in[]if if bar_1 then[[]]])',
 }
 
 
@@ -905,6 +915,10 @@ def c20_failures(case, o, relex):
                 k = classify_panic(case, o, a["panic"], y, first=False)
                 if k == "C20-hidoc-annotation-oob" and not (corrupted or can == k or not valid):
                     k = None
+                if k is None and corrupted and "ok" not in f.get("tree", {}):
+                    # the first output is invalid Jsonnet (a C19 known finding glued / swallowed tokens): the
+                    # second pass is a first pass on invalid input
+                    k = classify_panic(case, {"tree": f["tree"], "lex": f["lex"]}, a["panic"], y, first=True)
                 probs.append(("the formatter panicked on its own output", a["panic"], k))
             elif "diag" in a:
                 probs.append(("the formatter rejects its own output", a,
@@ -924,7 +938,7 @@ def c20_failures(case, o, relex):
 
 
 def classify_panic(case, o, msg, text, first):
-    if "Debug panic! Found a tab" in msg and "\t" in text.replace("\n\t", "\n").lstrip("\t"):
+    if "Debug panic! Found a tab" in msg and "\t" in text:
         return "C20-dprint-debug-tab-newline"
     if "Debug panic! Found a newline" in msg and "\n" in text:
         return "C20-dprint-debug-tab-newline"
@@ -955,6 +969,10 @@ def classify_unstable(case, y, y2, ylex, y2lex, corrupted):
     ty1, ty2 = tokens_of(ylex), tokens_of(y2lex)
     cy = [tuple(c) for c in ylex["comments"]]
     cy2 = [tuple(c) for c in y2lex["comments"]]
+    if (ty1 == ty2 or no_trailing_commas(ty1) == no_trailing_commas(ty2)) and cy == cy2:
+        used = whitespace_change_explained(y, y2)
+        if used and (cy or used == {"C20-group-single-line-although-spanning"}):
+            return sorted(used)[0]
     if not cy:
         return None     # programs without comments must be stable, whitespace included
     # the only token change tolerated: a trailing comma that comes and goes with the single-line /
@@ -1002,5 +1020,177 @@ def classify_unstable(case, y, y2, ylex, y2lex, corrupted):
     if lost_before_local:
         return "C20-comment-before-local-moves-out"
     if changed:
+        # the whitespace around the re-indented comments must itself be stable or explained
+        if whitespace_change_explained(y, y2, ignore_comment_text=True) is None:
+            return None
         return "C20-block-comment-reindent-unstable"
-    return "C20-whitespace-unstable-near-comments"
+    # whitespace only: the known site is the comments that END a list / the file (and the comment alone in an
+    # otherwise empty list): every changed gap must lie in a run of comments that reaches a closing bracket or
+    # the end of the text.  A gap that changes anywhere else is a different defect and is reported.
+    return None
+
+
+def trivia_split(text):
+    """-> (elements [(kind, text)], gaps [whitespace before element i] + [final gap]); kind in com|str|tok"""
+    els, gaps = [], []
+    i, n, gap = 0, len(text), ""
+    while i < n:
+        c = text[i]
+        if c in " \t\r\n":
+            gap += c
+            i += 1
+            continue
+        j = i
+        if text.startswith("/*", i):
+            j = text.find("*/", i + 2)
+            j = n if j < 0 else j + 2
+            kind = "com"
+        elif text.startswith("//", i) or c == "#":
+            j = text.find("\n", i)
+            j = n if j < 0 else j
+            kind = "com"
+        elif text.startswith("|||", i):
+            m = re.compile(r"\|\|\|-?[ \t]*\n(?:[ \t]*\n)*([ \t]+)").match(text, i)
+            kind = "str"
+            if m:
+                ind = m.group(1)
+                k = m.end() - len(ind)
+                while k < n:
+                    e = text.find("\n", k)
+                    e = n if e < 0 else e
+                    line = text[k:e]
+                    if line.strip() == "" or line.startswith(ind):
+                        k = e + 1
+                        continue
+                    break
+                e = text.find("|||", k)
+                j = n if e < 0 else e + 3
+            else:
+                j = i + 3
+        elif c in "\"'" or (c == "@" and i + 1 < n and text[i + 1] in "\"'"):
+            v = c == "@"
+            q = text[i + 1] if v else c
+            k = i + (2 if v else 1)
+            while k < n:
+                if v and text.startswith(q + q, k):
+                    k += 2
+                elif not v and text[k] == "\\":
+                    k += 2
+                elif text[k] == q:
+                    break
+                else:
+                    k += 1
+            j = min(k + 1, n)
+            kind = "str"
+        elif c.isalnum() or c == "_":
+            while j < n and (text[j].isalnum() or text[j] in "_."):
+                j += 1
+            kind = "tok"
+        else:
+            j = i + 1
+            kind = "tok"
+        els.append((kind, text[i:j]))
+        gaps.append(gap)
+        gap = ""
+        i = j
+    gaps.append(gap)
+    return els, gaps
+
+
+def whitespace_change_explained(y, y2, ignore_comment_text=False):
+    """y -> y2 differ in whitespace / trailing commas only.  Every changed whitespace gap must be explained by one of
+    the two known whitespace instabilities; returns the set of finding ids used, or None if some gap is explained
+    by neither (a different defect, reported).
+
+    GROUP  the first output gave a bracketed LIST (object body, array literal, argument / parameter list) an
+           inconsistent layout - no line break after the opening bracket although the content spans lines, or a
+           line break at one end of the list only - because dprint settled the group's `is_multiple_lines`
+           conditions inconsistently; the second pass reads those line breaks from its input and prints the group
+           consistently.  Explains a gap that lies inside such a group (directly or nested).
+    ENDING the gap lies in a run of comments that reaches a closing bracket or the end of the text (the comments
+           that end a list / the file, or stand alone in an otherwise empty list)."""
+    e1, g1 = drop_trailing_commas(*trivia_split(y))
+    e2, g2 = drop_trailing_commas(*trivia_split(y2))
+    if ignore_comment_text:
+        e1 = [(k, "/*") if k == "com" and t.startswith("/*") else (k, t) for k, t in e1]
+        e2 = [(k, "/*") if k == "com" and t.startswith("/*") else (k, t) for k, t in e2]
+    if e1 != e2:
+        return None
+    if g1 == g2:
+        return set()
+    close = {"(": ")", "[": "]", "{": "}"}
+    kw = {"in", "then", "else", "if", "local", "assert", "error", "for", "import", "importstr", "importbin",
+          "tailstrict"}
+    stack, encl, match, parent = [], [None] * (len(e1) + 1), {}, {}
+
+    def is_list(i):
+        t = e1[i][1]
+        prev = next((e1[j] for j in range(i - 1, -1, -1) if e1[j][0] != "com"), None)
+        value_before = prev is not None and (prev[0] == "str" or prev[1] in (")", "]", "}") or (
+            (prev[1][0].isalnum() or prev[1][0] in "_$") and prev[1] not in kw))
+        if t == "{":
+            return True
+        if t == "[":
+            return not value_before
+        return value_before          # `f(`, `function(`, `a(` in a method definition
+    for i, (k, t) in enumerate(e1):
+        encl[i] = stack[-1] if stack else None     # gap i (before element i) lies inside this open bracket
+        if k == "tok" and t in ")]}" and stack:
+            match[stack.pop()] = i
+        if k == "tok" and t in close:
+            parent[i] = stack[-1] if stack else None
+            stack.append(i)
+
+    def span(g, o, c):
+        return any("\n" in g[j] for j in range(o + 1, c + 1)) or any("\n" in e1[j][1] for j in range(o + 1, c))
+
+    def bad_then_good(o):
+        if o not in match or not is_list(o):
+            return False
+        c = match[o]
+        a1, b1, a2, b2 = "\n" in g1[o + 1], "\n" in g1[c], "\n" in g2[o + 1], "\n" in g2[c]
+        inconsistent1 = a1 != b1 or (not a1 and span(g1, o, c))
+        consistent2 = a2 == b2 and (a2 or not span(g2, o, c))
+        return inconsistent1 and consistent2
+
+    def ending(i):
+        lo, ncom = i - 1, 0
+        while lo >= 0 and e1[lo][0] == "com":
+            ncom += 1
+            lo -= 1
+        hi = i
+        while hi < len(e1) and e1[hi][0] == "com":
+            ncom += 1
+            hi += 1
+        return bool(ncom) and (hi == len(e1) or e1[hi][1] in (")", "]", "}"))
+    used = set()
+    for i in range(len(g1)):
+        if g1[i] == g2[i]:
+            continue
+        o = encl[i]
+        while o is not None and not bad_then_good(o):
+            o = parent.get(o)
+        if o is not None:
+            used.add("C20-group-single-line-although-spanning")
+        elif ending(i):
+            used.add("C20-whitespace-unstable-near-comments")
+        else:
+            return None
+    return used
+
+
+def drop_trailing_commas(els, gaps):
+    e2, g2 = [], []
+    carry = ""
+    for i, el in enumerate(els):
+        nxt = next((x for x in els[i + 1:] if x[0] != "com"), None)
+        if el == ("tok", ",") and nxt is not None and nxt[1] in (")", "]", "}"):
+            carry += gaps[i] + "\0"      # the comma's own position is part of the surrounding gap
+            continue
+        e2.append(el)
+        g2.append(carry + gaps[i])
+        carry = ""
+    g2.append(carry + gaps[-1])
+    return e2, g2
+
+
